@@ -261,6 +261,8 @@ class Encoder:
         elif name == 'SymmetricBandToeplitzOperator':
             p = self.params(o, vals=tensor(o.band_values),
                             ints=[[-1 if o.fft_size is None else int(o.fft_size)]], s=o.method)
+        elif name == 'ToastObservationMatrixOperator':
+            p = self.params(o)
         else:
             p = self.params(o, s=name)
             name = 'Opaque'
